@@ -315,6 +315,8 @@ func parserCheck(c *Check, id string) {
 		}
 		c.Ob("lexer-appends-eof-last", "lexer.generateTokens", ok, r.pos(ir.Info.Decl.Pos()), "advance(0, eof) is the last action before returning the (validated) tokens")
 	}
+	// (F2) the lexer indexes its input only at the listed expressions, each with a length guard of a known kind
+	lexerIndexSites(c, r)
 	// (G) nil-result contract of parse helpers: a helper that may succeed with a nil result only does so when it
 	// was not forced; callers that use the result without a nil test force it
 	nilContract(c, r, files)
@@ -774,4 +776,85 @@ func nilContract(c *Check, r *repoCtx, files map[string]bool) {
 	}
 	c.Set("nil_contract_functions", len(names))
 	c.Set("nil_contract_deref_sites", nsites)
+}
+
+// lexerIndexes: every index expression of tllexer.go (function/expression), with the guard that makes it safe.
+var lexerIndexes = map[string]string{
+	"nameIdent/s[0]":           "local: `len(s) == 0 ||` precedes it in the same condition",
+	"nameIdent/s[i]":           "local: loop condition `i < len(s) &&`",
+	"builtinIdent/s[0]":        "local: `len(s) == 0 ||` precedes it in the same condition",
+	"builtinIdent/s[i]":        "local: loop condition `i < len(s) &&`",
+	"numberLexeme/s[i]":        "local: loop condition `i < len(s) &&`",
+	"checkPrimitive/l.str[0]":  "caller: nextToken is called only from the loop `for l.str != \"\"` of generateTokens, and checkPrimitive first thing in nextToken",
+	"nextToken/l.str[0]":       "caller: nextToken is called only from the loop `for l.str != \"\"` of generateTokens; no consumption before the switch",
+	"lexFunctionModifier/w[0]": "local: `w == \"\" ||` precedes it in the same condition",
+	"lexNumberSign/l.str[i]":   "local: loop condition `i < len(l.str) &&`",
+	"lexLexeme/l.str[len(w)]":  "local: `len(l.str) > len(w) &&` precedes it in the same condition",
+	"lexLexeme/ns[0]":          "ns = w + \".\" is non-empty by construction",
+	"lexLexeme/w[0]":           "w is a non-empty identifier: lexLexeme is entered only when the input starts with a letter (nameIdent returns at least that letter); the w2 replacement is taken only under w2 != \"\"",
+}
+
+func lexerIndexSites(c *Check, r *repoCtx) {
+	n := 0
+	for name, fi := range r.funcs {
+		if !strings.HasPrefix(name, "internal/tlast.") || fi.Decl.Body == nil {
+			continue
+		}
+		if filepath.Base(r.co.Fset.Position(fi.Decl.Pos()).Filename) != "tllexer.go" {
+			continue
+		}
+		fname := fi.Obj.Name()
+		var stack []ast.Node
+		ast.Inspect(fi.Decl.Body, func(nd ast.Node) bool {
+			if nd == nil {
+				stack = stack[:len(stack)-1]
+				return true
+			}
+			stack = append(stack, nd)
+			ix, ok := nd.(*ast.IndexExpr)
+			if !ok {
+				return true
+			}
+			tv, ok := fi.Pkg.TypesInfo.Types[ix.X]
+			if !ok {
+				return true
+			}
+			if b, isB := tv.Type.Underlying().(*types.Basic); !isB || b.Info()&types.IsString == 0 {
+				if _, isSl := tv.Type.Underlying().(*types.Slice); !isSl {
+					return true
+				}
+			}
+			n++
+			key := fname + "/" + types.ExprString(ix)
+			reason, listed := lexerIndexes[key]
+			okGuard := listed
+			detail := orStr(reason, "an index into the lexer input that is not in the triaged table: nothing shows that the input is long enough here")
+			if listed && strings.HasPrefix(reason, "local:") {
+				// verify the local guard: a `len(X)`-comparison or emptiness test on the same operand, earlier in the same && / || chain or loop condition
+				okGuard = false
+				xs := types.ExprString(ix.X)
+				for i := len(stack) - 2; i >= 0 && !okGuard; i-- {
+					if fs, isFor := stack[i].(*ast.ForStmt); isFor && fs.Cond != nil && strings.Contains(types.ExprString(fs.Cond), "len("+xs+")") {
+						okGuard = true // inside the body of a loop whose condition bounds the index
+						break
+					}
+					be, isBin := stack[i].(*ast.BinaryExpr)
+					if !isBin || (be.Op != token.LAND && be.Op != token.LOR) {
+						continue
+					}
+					left := types.ExprString(be.X)
+					if strings.Contains(left, "len("+xs+")") || strings.Contains(left, xs+" == \"\"") || strings.Contains(left, xs+" != \"\"") {
+						okGuard = true
+					}
+				}
+				if !okGuard {
+					detail = "the local length guard stated in the table was not found: " + reason
+				}
+			}
+			c.Ob("lexer/index-expression-guarded", key, okGuard, r.pos(ix.Pos()), detail)
+			return true
+		})
+	}
+	c.Set("lexer_index_sites", n)
+	c.Floor("lexer/index-expression-guarded", 20)
 }
